@@ -285,7 +285,11 @@ func (c *Ctx) checkCase(text string, kind string, extra map[string]any) *CaseInf
 		ci.Class = "warnings"
 	}
 	ci.Observed = shortCheckObs(o)
-	ci.Coq = fmt.Sprintf("(mk_ccase %s %s %s)", dumpProgram(pr.Value), coqParseDiags(pr), coqCheckObs(o))
+	tree := dumpProgram(pr.Value)
+	if t, ok := extra["expected_tree"].(string); ok && t != "" && len(pr.Errors) == 0 {
+		tree = t // the generator's own tree, with the printer's ranges: what the text means
+	}
+	ci.Coq = fmt.Sprintf("(mk_ccase %s %s %s)", tree, coqParseDiags(pr), coqCheckObs(o))
 	if k := knownSignature(text); k != "" {
 		ci.Known = k
 	}
@@ -480,10 +484,10 @@ func init() {
 			ro, log := sc.run()
 			term, _ := sc.coq(ro, log)
 			ci := sc.info("c17case")
-			ci.Extra = map[string]any{"edit": edit, "check": shortCheckObs(o)}
+			ci.extra(map[string]any{"edit": edit, "check": shortCheckObs(o)})
 			ci.Class = ro.Class
 			ci.Observed = shortObserved(ro)
-			ci.Coq = fmt.Sprintf("(mk_c17case (mk_ccase %s %s %s) %s)", dumpProgram(pr.Value), coqParseDiags(pr), coqCheckObs(o), term)
+			ci.Coq = fmt.Sprintf("(mk_c17case (mk_ccase %s %s %s) %s)", sc.treeOf(pr), coqParseDiags(pr), coqCheckObs(o), term)
 			if o.Panic == "" && o.Errors == 0 {
 				c.count("check:no-error")
 			}
@@ -521,8 +525,10 @@ func init() {
 			if i%2 == 1 {
 				edit = nameEdits(g, prog, r)
 			}
-			text := renderProgram(prog, 0, r)
-			c.checkCase(text, "ccase", map[string]any{"edit": edit})
+			pp := &Printer{}
+			pp.program(prog)
+			text, pos := Render(pp.Toks, 0, r)
+			c.checkCase(text, "ccase", map[string]any{"edit": edit, "expected_tree": gd{pos}.program(prog)})
 			c.count("edit:" + edit)
 		}
 	}
